@@ -24,14 +24,14 @@ func (l *AccessLog) note(ex *Exec, addr *Value, write bool) {
 	if l.tag == 0 && ex.cur.id == 0 {
 		return
 	}
-	l.Entries = append(l.Entries, Access{Addr: addr, Write: write, Tag: l.tag, G: ex.cur.id, Locks: append([]*Value(nil), ex.cur.held...), Fn: ex.topFn()})
+	l.Entries = append(l.Entries, Access{Addr: addr, Write: write, Tag: l.tag, G: ex.cur.id, Locks: ex.lockset(write), Fn: ex.topFn()})
 }
 
 func (l *AccessLog) noteObj(ex *Exec, obj interface{}, write bool) {
 	if l.tag == 0 && ex.cur.id == 0 {
 		return
 	}
-	l.Entries = append(l.Entries, Access{Addr: obj, Write: write, Tag: l.tag, G: ex.cur.id, Locks: append([]*Value(nil), ex.cur.held...), Fn: ex.topFn()})
+	l.Entries = append(l.Entries, Access{Addr: obj, Write: write, Tag: l.tag, G: ex.cur.id, Locks: ex.lockset(write), Fn: ex.topFn()})
 }
 
 func (ex *Exec) topFn() string {
@@ -107,4 +107,13 @@ func (ex *Exec) cmplxPhase(c Cplx) Value {
 	}
 	ex.abort("cmplx.Phase on symbolic operands is not modelled yet")
 	return nil
+}
+
+// lockset: the locks that protect an access made now.  A read lock of a RWMutex protects reads only.
+func (ex *Exec) lockset(write bool) []*Value {
+	ls := append([]*Value(nil), ex.cur.held...)
+	if !write {
+		ls = append(ls, ex.cur.rheld...)
+	}
+	return ls
 }
